@@ -94,6 +94,39 @@ Theorem C17_dgram_shared_framer_refuted :
 Proof. vm_compute. split; reflexivity. Qed.
 Print Assumptions C17_dgram_shared_framer_refuted.
 
+(* --- datagram front-ends, partial: on datagrams that carry whole frames (nothing is left in the
+       framer, nothing is raised) the threaded server (handler + framer per datagram) and the
+       asyncio server (one framer for all peers) send the same bytes to the same peers and end in
+       the same world, for any sequence of datagrams from any peers.  The hypothesis is exactly what
+       C17_dgram_shared_framer_refuted violates (its first datagram is an incomplete frame). ------ *)
+
+Theorem C17_dgram_equiv_partial :
+  forall (FS Req Resp World : Type) (E : env FS Req Resp World) c dgs sva svs,
+    cfg_broadcast c = false -> empty_read_idle _ _ _ _ E ->
+    Forall (fun kb => whole_frames _ _ _ _ E (snd kb)) dgs ->
+    sv_world _ _ sva = sv_world _ _ svs -> sv_shared _ _ sva = fresh_conn _ _ _ _ E ->
+    dgram_clean _ _ _ _ E c (sv_world _ _ sva) dgs = true ->
+    outs_of _ (snd (run_events _ _ _ _ code E SyncUdp c svs (dgram_events dgs))) =
+    outs_of _ (snd (run_events _ _ _ _ code E AioUdp c sva (dgram_events dgs))) /\
+    sv_world _ _ (fst (run_events _ _ _ _ code E SyncUdp c svs (dgram_events dgs))) =
+    sv_world _ _ (fst (run_events _ _ _ _ code E AioUdp c sva (dgram_events dgs))).
+Proof. intros FS Req Resp World E. exact (dgram_equiv FS Req Resp World E). Qed.
+Print Assumptions C17_dgram_equiv_partial.
+
+(* the hypotheses are satisfiable: in the toy environment request datagrams are whole frames, two
+   peers are answered alike; and the refutation witness's first datagram is NOT a whole frame *)
+Example C17_dgram_nonvacuous :
+  empty_read_idle _ _ _ _ toy_env /\ whole_frames _ _ _ _ toy_env [7%N] /\ ~ whole_frames _ _ _ _ toy_env [255%N] /\
+  dgram_clean _ _ _ _ toy_env toy_cfg [] [(0%nat, [7%N]); (1%nat, [9%N])] = true /\
+  outs_of _ (snd (run_events _ _ _ _ code toy_env AioUdp toy_cfg (fresh_server _ _ _ _ toy_env [])
+                    (dgram_events [(0%nat, [7%N]); (1%nat, [9%N])]))) = [(0%nat, [[7%N]]); (1%nat, [[9%N]])].
+Proof.
+  split; [intro fa; reflexivity|].
+  split; [split; [discriminate|intro fa; eexists; reflexivity]|].
+  split; [intros [_ H]; destruct (H {| fa_units := []; fa_single := true |}) as [ds Hd]; vm_compute in Hd; discriminate|].
+  split; vm_compute; reflexivity.
+Qed.
+
 (* --- connections are private -------------------------------------------------------------- *)
 
 Theorem C17_conn_private :
